@@ -1,12 +1,624 @@
-//! stub: property C07 has no correspondence harness yet
+//! C07 — request-body channel (`actix_http::h1::Payload::create` pair): exact bytes, truthful
+//! ending, no lost wake-ups.  Public API only: `h1::Payload::create`, the `PayloadSender`
+//! methods (`feed_data`, `feed_eof`, `set_error`, `need_read`, `is_dropped`, `Drop`), and the
+//! reader through `Stream::poll_next` / `unread_data` / drop — either on `h1::Payload` directly
+//! or (`wrap=1`) through the `actix_http::Payload::H1` wrapper of `src/payload.rs`.
+//!
+//! Line protocol: see `lean/ActixModel/Drv/C07.lean`.
+use std::{
+    collections::VecDeque,
+    pin::Pin,
+    sync::{Arc, Mutex, OnceLock},
+    task::{Context, Poll, Wake, Waker},
+};
+
+use actix_http::error::PayloadError;
+use bytes::Bytes;
+use futures_core::Stream;
+
 use super::Prop;
-use crate::common::CaseResult;
+use crate::common::{CaseResult, Ctx, Rng, Tier};
+
+const RULE: &str = "cases = op sequences on a fresh h1::Payload::create(eof) pair: every sequence over \
+{fd:1 fd:32768 fe se:ovf ds nr:1 pn:0 ur:1 dr} up to depth 5 (6 thorough), every sequence over a 17-token alphabet \
+(chunk sizes 0,1,32767,32768,40000; two errors; same/different wakers for reader and feeder; is_dropped) up to depth 3 (4), \
+both also from create(true) at depth<=3, every sequence over {fd:32768 fe se:ovf ds nr:1 pn:0 dr} up to depth 6 (7), \
+reader-side sequences on actix_http::Payload::from(Bytes) of 0/1/10/32768/40000 bytes, plus seeded random sequences up to length 200 in five profiles (streaming, \
+back-pressure around 32 KiB, endings, handle drops, uniform), half of them through the actix_http::Payload::H1 wrapper; \
+a case is non-trivial if a sender op was accepted and a poll returned something; distinct = distinct (case, output) hashes";
+
+const N_WAKERS: usize = 3;
+const MAX_CHUNK: usize = 100_000;
+const MAX_CHUNKS: usize = 4096;
+/// the property's "buffering limit" (32 KiB), written down independently of the source
+const LIMIT: usize = 32 * 1024;
+
+fn pattern() -> &'static [u8] {
+    static P: OnceLock<&'static [u8]> = OnceLock::new();
+    P.get_or_init(|| {
+        let v: Vec<u8> = (0..(MAX_CHUNK + MAX_CHUNKS) as u64)
+            .map(|i| {
+                let z = (i ^ 0x5bd1_e995).wrapping_mul(0x9E37_79B9_7F4A_7C15);
+                (z >> 29) as u8
+            })
+            .collect();
+        Box::leak(v.into_boxed_slice())
+    })
+}
+
+/// chunk k of length n: the window [k, k+n) of the fixed pattern (zero-copy)
+fn chunk(k: usize, n: usize) -> Bytes {
+    Bytes::from_static(&pattern()[k..k + n])
+}
+
+struct CountingWaker {
+    id: usize,
+    log: Arc<Mutex<Vec<usize>>>,
+}
+
+impl Wake for CountingWaker {
+    fn wake(self: Arc<Self>) {
+        self.log.lock().unwrap().push(self.id);
+    }
+    fn wake_by_ref(self: &Arc<Self>) {
+        self.log.lock().unwrap().push(self.id);
+    }
+}
+
+enum Reader {
+    H1(actix_http::h1::Payload),
+    Wrapped(actix_http::Payload),
+}
+
+impl Reader {
+    fn poll(&mut self, cx: &mut Context<'_>) -> Poll<Option<Result<Bytes, PayloadError>>> {
+        match self {
+            Reader::H1(p) => Pin::new(p).poll_next(cx),
+            Reader::Wrapped(p) => Pin::new(p).poll_next(cx),
+        }
+    }
+    fn unread(&mut self, b: Bytes) {
+        match self {
+            Reader::H1(p) => p.unread_data(b),
+            Reader::Wrapped(actix_http::Payload::H1 { payload }) => payload.unread_data(b),
+            Reader::Wrapped(_) => unreachable!(),
+        }
+    }
+}
+
+fn err_of_tok(t: &str) -> Option<PayloadError> {
+    Some(match t {
+        "inc" => PayloadError::Incomplete(None),
+        "inci" => PayloadError::Incomplete(Some(std::io::Error::new(std::io::ErrorKind::Other, "x"))),
+        "enc" => PayloadError::EncodingCorrupted,
+        "ovf" => PayloadError::Overflow,
+        "unk" => PayloadError::UnknownLength,
+        "io" => PayloadError::Io(std::io::Error::new(std::io::ErrorKind::Other, "x")),
+        _ => return None,
+    })
+}
+
+fn tok_of_err(e: &PayloadError) -> &'static str {
+    match e {
+        PayloadError::Incomplete(None) => "inc",
+        PayloadError::Incomplete(Some(_)) => "inci",
+        PayloadError::EncodingCorrupted => "enc",
+        PayloadError::Overflow => "ovf",
+        PayloadError::UnknownLength => "unk",
+        PayloadError::Io(_) => "io",
+        _ => "other",
+    }
+}
+
+/// which chunk of this case is `b`?  By address inside the pattern (the channel passes `Bytes`
+/// through without copying), else by content among the chunks created so far.
+fn identify(b: &Bytes, made: &[(usize, usize)]) -> String {
+    let base = pattern().as_ptr() as usize;
+    let p = b.as_ptr() as usize;
+    if p >= base && p + b.len() <= base + pattern().len() {
+        let k = p - base;
+        if made.iter().any(|&(mk, mn)| mk == k && mn == b.len()) {
+            return format!("D{}:{}", k, b.len());
+        }
+    }
+    for &(k, n) in made {
+        if n == b.len() && &pattern()[k..k + n] == b.as_ref() {
+            return format!("D{}:{}", k, n);
+        }
+    }
+    format!("D?:{}", b.len())
+}
+
+/// The property's own words, evaluated on what the real code did (no model involved).
+struct Oracle {
+    sender_alive: bool,
+    reader_alive: bool,
+    /// bytes fed and not yet yielded (byte level: chunk boundaries are not part of the claim)
+    pending: VecDeque<u8>,
+    eof_signalled: bool,
+    err_ever: bool,
+    err_outstanding: Option<&'static str>,
+    parked_reader: Option<usize>,
+    parked_feeder: Option<usize>,
+    fails: Vec<(String, String)>,
+}
+
+impl Oracle {
+    fn fail(&mut self, i: usize, tok: &str, sig: &str, what: String) {
+        self.fails.push((sig.to_owned(), format!("op#{} {}: {}", i, tok, what)));
+    }
+    /// a data / end / error / first sender-drop event happened: a parked reader must be woken by it
+    fn reader_event(&mut self, i: usize, tok: &str, wakes: &[usize]) {
+        if let Some(w) = self.parked_reader {
+            if !wakes.contains(&w) {
+                self.fail(i, tok, "reader-not-woken", format!("reader parked on waker {} was not woken (wakes {:?})", w, wakes));
+            }
+        }
+    }
+}
+
+fn run(line: &str) -> CaseResult {
+    let words: Vec<&str> = line.split_ascii_whitespace().collect();
+    let eof = words.iter().any(|w| *w == "eof=1");
+    let wrap = words.iter().any(|w| *w == "wrap=1");
+    let ops: Vec<&str> = words.iter().copied().filter(|w| !w.contains('=')).collect();
+
+    let log: Arc<Mutex<Vec<usize>>> = Arc::new(Mutex::new(Vec::new()));
+    let arcs: Vec<Arc<CountingWaker>> =
+        (0..N_WAKERS).map(|id| Arc::new(CountingWaker { id, log: log.clone() })).collect();
+    let wakers: Vec<Waker> = arcs.iter().map(|a| Waker::from(a.clone())).collect();
+    let base: Vec<usize> = arcs.iter().map(Arc::strong_count).collect();
+
+    // from=<n>: `actix_http::Payload::from(Bytes)` (src/payload.rs) instead of a create() pair
+    let from: Option<usize> = words
+        .iter()
+        .find_map(|w| w.strip_prefix("from="))
+        .and_then(|v| v.parse().ok())
+        .filter(|n| *n <= MAX_CHUNK);
+    let (mut sender, mut reader) = match from {
+        Some(n) => (None, Some(Reader::Wrapped(actix_http::Payload::from(chunk(MAX_CHUNKS - 1, n))))),
+        None => {
+            let (sender, payload) = actix_http::h1::Payload::create(eof);
+            let reader = if wrap { Reader::Wrapped(actix_http::Payload::from(payload)) } else { Reader::H1(payload) };
+            (Some(sender), Some(reader))
+        }
+    };
+
+    let mut o = Oracle {
+        sender_alive: true,
+        reader_alive: true,
+        pending: VecDeque::new(),
+        eof_signalled: eof,
+        err_ever: false,
+        err_outstanding: None,
+        parked_reader: None,
+        parked_feeder: None,
+        fails: Vec::new(),
+    };
+    let mut tags: Vec<String> = Vec::new();
+    let mut made: Vec<(usize, usize)> = Vec::new();
+    if let Some(n) = from {
+        // ground truth for From<Bytes>: a complete body of exactly these bytes, no feeder
+        o.sender_alive = false;
+        o.eof_signalled = true;
+        o.pending.extend(chunk(MAX_CHUNKS - 1, n).iter());
+        made.push((MAX_CHUNKS - 1, n));
+        tags.push("from-bytes".into());
+    }
+    let mut outs: Vec<String> = Vec::with_capacity(ops.len());
+    let mut k = 0usize; // data-carrying tokens seen
+    let mut accepted_sender_op = false;
+    let mut poll_answered = false;
+    let mut yielded = 0usize;
+    let mut max_buffered = 0usize;
+
+    for (i, tok) in ops.iter().enumerate() {
+        let parts: Vec<&str> = tok.split(':').collect();
+        let my_k = k;
+        if tok.starts_with("fd:") || tok.starts_with("ur:") {
+            k += 1;
+        }
+        log.lock().unwrap().clear();
+        let both = o.sender_alive && o.reader_alive;
+        // ---- run the op on the real code
+        let res: String = match parts.as_slice() {
+            ["fd", n] => match n.parse::<usize>() {
+                Ok(n) if n <= MAX_CHUNK && my_k < MAX_CHUNKS - 1 => match sender.as_mut() {
+                    Some(s) => {
+                        let b = chunk(my_k, n);
+                        if both {
+                            made.push((my_k, n));
+                            o.pending.extend(b.iter());
+                            accepted_sender_op = true;
+                        }
+                        s.feed_data(b);
+                        "ok".into()
+                    }
+                    None => "gone".into(),
+                },
+                _ => "bad-op".into(),
+            },
+            ["ur", n] => match n.parse::<usize>() {
+                Ok(n) if n <= MAX_CHUNK && my_k < MAX_CHUNKS - 1 => match reader.as_mut() {
+                    Some(r) => {
+                        let b = chunk(my_k, n);
+                        made.push((my_k, n));
+                        for x in b.iter().rev() {
+                            o.pending.push_front(*x);
+                        }
+                        r.unread(b);
+                        "ok".into()
+                    }
+                    None => "gone".into(),
+                },
+                _ => "bad-op".into(),
+            },
+            ["fe"] => match sender.as_mut() {
+                Some(s) => {
+                    s.feed_eof();
+                    "ok".into()
+                }
+                None => "gone".into(),
+            },
+            ["se", e] => match err_of_tok(e) {
+                Some(err) => match sender.as_mut() {
+                    Some(s) => {
+                        s.set_error(err);
+                        "ok".into()
+                    }
+                    None => "gone".into(),
+                },
+                None => "bad-op".into(),
+            },
+            ["ds"] => match sender.take() {
+                Some(s) => {
+                    drop(s);
+                    "ok".into()
+                }
+                None => "gone".into(),
+            },
+            ["nr", w] => match w.parse::<usize>() {
+                Ok(w) if w < N_WAKERS => match sender.as_ref() {
+                    Some(s) => {
+                        let mut cx = Context::from_waker(&wakers[w]);
+                        format!("{:?}", s.need_read(&mut cx))
+                    }
+                    None => "gone".into(),
+                },
+                _ => "bad-op".into(),
+            },
+            ["isd"] => match sender.as_ref() {
+                Some(s) => (s.is_dropped() as u8).to_string(),
+                None => "gone".into(),
+            },
+            ["pn", w] => match w.parse::<usize>() {
+                Ok(w) if w < N_WAKERS => match reader.as_mut() {
+                    Some(r) => {
+                        let mut cx = Context::from_waker(&wakers[w]);
+                        let polled = r.poll(&mut cx);
+                        let wakes: Vec<usize> = log.lock().unwrap().clone();
+                        poll_answered = true;
+                        // ---- oracle: what a poll may answer
+                        match polled {
+                            Poll::Pending => {
+                                if !o.pending.is_empty() {
+                                    o.fail(i, tok, "pending-with-data", format!("Pending while {} fed bytes are undelivered", o.pending.len()));
+                                }
+                                if let Some(e) = o.err_outstanding {
+                                    o.fail(i, tok, "pending-with-error", format!("Pending while error {} is undelivered", e));
+                                }
+                                if o.eof_signalled {
+                                    o.fail(i, tok, "pending-after-eof", "Pending although the end was signalled".into());
+                                }
+                                o.parked_reader = Some(w);
+                                "P".into()
+                            }
+                            Poll::Ready(Some(Ok(b))) => {
+                                yielded += 1;
+                                let n = b.len();
+                                let ok = n <= o.pending.len() && o.pending.iter().take(n).copied().eq(b.iter().copied());
+                                if !ok {
+                                    o.fail(i, tok, "bytes-mismatch", format!("yielded {} bytes that are not the next fed bytes ({} outstanding)", n, o.pending.len()));
+                                    o.pending.clear();
+                                } else {
+                                    o.pending.drain(..n);
+                                }
+                                if let Some(f) = o.parked_feeder {
+                                    if o.pending.len() < LIMIT && !wakes.contains(&f) {
+                                        o.fail(i, tok, "feeder-not-woken", format!("buffer drained to {} < {} but paused feeder (waker {}) not woken", o.pending.len(), LIMIT, f));
+                                    }
+                                }
+                                o.parked_reader = None;
+                                identify(&b, &made)
+                            }
+                            Poll::Ready(Some(Err(e))) => {
+                                let t = tok_of_err(&e);
+                                if !o.pending.is_empty() {
+                                    o.fail(i, tok, "error-before-data", format!("error {} reported while {} fed bytes are undelivered", t, o.pending.len()));
+                                }
+                                match o.err_outstanding {
+                                    Some(x) if x == t => {}
+                                    other => o.fail(i, tok, "wrong-error", format!("reported {} but outstanding error is {:?}", t, other)),
+                                }
+                                o.err_outstanding = None;
+                                o.parked_reader = None;
+                                tags.push(format!("end:E{}", t));
+                                format!("E{}", t)
+                            }
+                            Poll::Ready(None) => {
+                                if !o.eof_signalled {
+                                    o.fail(i, tok, "clean-end-unsignalled", "clean end although feed_eof was never called".into());
+                                }
+                                if let Some(e) = o.err_outstanding {
+                                    o.fail(i, tok, "clean-end-hides-error", format!("clean end while error {} is undelivered", e));
+                                }
+                                if !o.pending.is_empty() {
+                                    o.fail(i, tok, "clean-end-with-data-left", format!("clean end while {} fed bytes are undelivered", o.pending.len()));
+                                }
+                                o.parked_reader = None;
+                                tags.push("end:N".into());
+                                "N".into()
+                            }
+                        }
+                    }
+                    None => "gone".into(),
+                },
+                _ => "bad-op".into(),
+            },
+            ["dr"] => match reader.take() {
+                Some(r) => {
+                    drop(r);
+                    "ok".into()
+                }
+                None => "gone".into(),
+            },
+            _ => "bad-op".into(),
+        };
+        let wakes: Vec<usize> = log.lock().unwrap().clone();
+        tags.push(parts[0].to_owned());
+
+        // ---- oracle: bookkeeping from the op history + wake-up obligations
+        if res != "gone" && res != "bad-op" {
+            match parts[0] {
+                "fd" => {
+                    if both {
+                        o.reader_event(i, tok, &wakes);
+                    }
+                }
+                "fe" => {
+                    if both {
+                        accepted_sender_op = true;
+                        o.eof_signalled = true;
+                        o.reader_event(i, tok, &wakes);
+                    }
+                }
+                "se" => {
+                    if both {
+                        accepted_sender_op = true;
+                        o.err_outstanding = err_of_tok(parts[1]).as_ref().map(tok_of_err);
+                        o.err_ever = true;
+                        o.reader_event(i, tok, &wakes);
+                    }
+                }
+                "ds" => {
+                    if both && !o.eof_signalled && !o.err_ever {
+                        // the feeding side disappears first: the body is incomplete
+                        o.err_outstanding = Some("inc");
+                        o.err_ever = true;
+                        o.reader_event(i, tok, &wakes);
+                        tags.push("ds:incomplete".into());
+                    }
+                    o.sender_alive = false;
+                }
+                "nr" => {
+                    let w: usize = parts[1].parse().unwrap();
+                    match res.as_str() {
+                        "Pause" => {
+                            if !o.reader_alive {
+                                o.fail(i, tok, "status-wrong", "Pause although the reader is gone".into());
+                            }
+                            if o.pending.len() < LIMIT {
+                                o.fail(i, tok, "pause-below-limit", format!("told to pause with only {} bytes buffered: no drain can ever wake the feeder", o.pending.len()));
+                            }
+                            o.parked_feeder = Some(w);
+                            tags.push("nr:Pause".into());
+                        }
+                        "Read" => {
+                            if !o.reader_alive {
+                                o.fail(i, tok, "status-wrong", "Read although the reader is gone".into());
+                            }
+                            o.parked_feeder = None;
+                        }
+                        "Dropped" => {
+                            if o.reader_alive {
+                                o.fail(i, tok, "status-wrong", "Dropped although the reader is alive".into());
+                            }
+                            o.parked_feeder = None;
+                        }
+                        other => o.fail(i, tok, "status-wrong", format!("unknown status {}", other)),
+                    }
+                }
+                "isd" => {
+                    if (res == "1") == o.reader_alive {
+                        o.fail(i, tok, "is-dropped-wrong", format!("is_dropped()={} reader_alive={}", res, o.reader_alive));
+                    }
+                }
+                "ur" => o.parked_reader = None,
+                "dr" => {
+                    o.reader_alive = false;
+                    o.parked_reader = None;
+                    if o.parked_feeder.is_some() {
+                        tags.push("O1:reader-dropped-while-feeder-parked".into());
+                    }
+                }
+                _ => {}
+            }
+        }
+        for w in &wakes {
+            if o.parked_reader == Some(*w) {
+                o.parked_reader = None;
+            }
+            if o.parked_feeder == Some(*w) {
+                o.parked_feeder = None;
+            }
+        }
+        max_buffered = max_buffered.max(o.pending.len());
+
+        let held: String = (0..N_WAKERS)
+            .map(|j| (Arc::strong_count(&arcs[j]) - base[j]).to_string())
+            .collect();
+        let mut s = res;
+        for w in &wakes {
+            s.push('!');
+            s.push_str(&w.to_string());
+        }
+        s.push('@');
+        s.push_str(&held);
+        outs.push(s);
+    }
+    if max_buffered >= LIMIT {
+        tags.push("buffered>=32K".into());
+    }
+    if yielded > 0 {
+        tags.push("yielded".into());
+    }
+    let mut r = CaseResult::ok(outs.join(" "));
+    r.nontrivial = (accepted_sender_op || from.is_some()) && poll_answered;
+    tags.sort();
+    tags.dedup();
+    r.tags = tags;
+    if let Some((sig, d)) = o.fails.into_iter().next() {
+        r = r.fail(&sig, d);
+    }
+    r
+}
+
+fn enumerate(alpha: &[&str], depth: usize, prefix: &str, cases: &mut Vec<String>) {
+    let mut idx: Vec<usize> = Vec::new();
+    for d in 1..=depth {
+        idx.clear();
+        idx.resize(d, 0);
+        'outer: loop {
+            let mut s = String::from(prefix);
+            for &i in &idx {
+                if !s.is_empty() {
+                    s.push(' ');
+                }
+                s.push_str(alpha[i]);
+            }
+            cases.push(s);
+            let mut k = d;
+            loop {
+                if k == 0 {
+                    break 'outer;
+                }
+                k -= 1;
+                idx[k] += 1;
+                if idx[k] < alpha.len() {
+                    break;
+                }
+                idx[k] = 0;
+            }
+        }
+    }
+}
+
+const SMALL: &[&str] = &["fd:1", "fd:32768", "fe", "se:ovf", "ds", "nr:1", "pn:0", "ur:1", "dr"];
+const WIDE: &[&str] = &[
+    "fd:0", "fd:1", "fd:32767", "fd:32768", "fd:40000", "fe", "se:ovf", "se:inc", "ds", "nr:0", "nr:1", "pn:0",
+    "pn:2", "ur:1", "ur:40000", "dr", "isd",
+];
+/// depth-7 alphabet (DESIGN: "exhaustive to depth 7"): one chunk size at the limit, both endings,
+/// both drops, both polls
+const TINY: &[&str] = &["fd:32768", "fe", "se:ovf", "ds", "nr:1", "pn:0", "dr"];
+const SIZES: &[usize] = &[0, 1, 2, 100, 4096, 16384, 32767, 32768, 32769, 40000, 65536];
+const ERRS: &[&str] = &["inc", "inci", "enc", "ovf", "unk", "io"];
+
+fn random_case(rng: &mut Rng) -> String {
+    let profile = rng.below(5);
+    let n = if rng.chance(1, 6) { rng.range(30, 200) } else { rng.range(1, 30) };
+    let mut toks: Vec<String> = Vec::new();
+    if rng.chance(1, 8) {
+        toks.push("eof=1".into());
+    }
+    if rng.chance(1, 2) {
+        toks.push("wrap=1".into());
+    }
+    if rng.chance(1, 25) {
+        toks.push(format!("from={}", rng.pick(SIZES)));
+    }
+    let size = |rng: &mut Rng, big: bool| -> usize {
+        if big {
+            *rng.pick(&SIZES[4..])
+        } else if rng.chance(1, 3) {
+            rng.range(0, 300)
+        } else {
+            *rng.pick(SIZES)
+        }
+    };
+    for j in 0..n {
+        let late = j * 4 >= n * 3;
+        // weights: fd, pn, nr, ur, fe, se, ds, dr, isd
+        let w: [usize; 9] = match profile {
+            0 => [30, 40, 10, 3, if late { 6 } else { 1 }, 1, if late { 3 } else { 0 }, 0, 1], // streaming
+            1 => [35, 20, 30, 6, 1, 1, 1, 0, 1],                                                // back-pressure
+            2 => [15, 30, 5, 3, 12, 12, 10, 2, 2],                                              // endings
+            3 => [15, 20, 15, 5, 5, 5, 10, 10, 10],                                             // handle drops
+            _ => [12, 12, 12, 12, 12, 12, 8, 6, 6],                                             // uniform
+        };
+        let total: usize = w.iter().sum();
+        let mut x = rng.below(total);
+        let mut kind = 0;
+        for (i, wi) in w.iter().enumerate() {
+            if x < *wi {
+                kind = i;
+                break;
+            }
+            x -= wi;
+        }
+        let wk = |rng: &mut Rng| if rng.chance(3, 4) { 0 } else { rng.below(N_WAKERS) };
+        toks.push(match kind {
+            0 => {
+                let big = profile == 1 && rng.chance(1, 2);
+                format!("fd:{}", size(rng, big))
+            }
+            1 => format!("pn:{}", wk(rng)),
+            2 => format!("nr:{}", if rng.chance(1, 2) { 1 } else { rng.below(N_WAKERS) }),
+            3 => format!("ur:{}", size(rng, false)),
+            4 => "fe".into(),
+            5 => format!("se:{}", rng.pick(ERRS)),
+            6 => "ds".into(),
+            7 => "dr".into(),
+            _ => "isd".into(),
+        });
+    }
+    toks.join(" ")
+}
+
+fn gen(ctx: &Ctx) -> Vec<String> {
+    let (d_small, d_wide, d_tiny) = match ctx.tier {
+        Tier::Quick => (5, 3, 6),
+        _ => (6, 4, 7),
+    };
+    let mut cases = Vec::new();
+    if ctx.tier != Tier::Burst {
+        enumerate(SMALL, d_small, "", &mut cases);
+        enumerate(WIDE, d_wide, "", &mut cases);
+        enumerate(SMALL, 3, "eof=1", &mut cases);
+        enumerate(SMALL, 3, "wrap=1", &mut cases);
+        enumerate(TINY, d_tiny, "", &mut cases);
+        for n in [0usize, 1, 10, 32768, 40000] {
+            enumerate(&["pn:0", "ur:1", "nr:1", "dr", "fd:1", "isd"], 3, &format!("from={}", n), &mut cases);
+        }
+    }
+    let mut rng = Rng::new(ctx.seed);
+    for _ in 0..ctx.budget(6000) {
+        cases.push(random_case(&mut rng));
+    }
+    cases
+}
 
 pub fn prop() -> Prop {
-    Prop {
-        rule: "unimplemented",
-        parallel: false,
-        gen: Box::new(|_| Vec::new()),
-        run: Box::new(|_| CaseResult::ok("unimplemented".to_owned())),
-    }
+    let _ = pattern();
+    Prop { rule: RULE, parallel: true, gen: Box::new(gen), run: Box::new(run) }
 }
